@@ -499,7 +499,8 @@ def wanEgressTcp (rt : RouteIn → Int) (w : World) (s : Skb) (l2 : Bool) (p : P
   let k := p.tuples.five
   if p.syn && !p.ack then
     let (w1, isCp, pp) := pidIsControlPlane w s
-    if isCp then (w1, outOk s s.mark)
+    -- dae's own SYN: drop whatever an earlier flow left under this 5-tuple, then pass
+    if isCp then ({ w1 with conn := aerase w1.conn k }, outOk s s.mark)
     else
       let pname := match pp with | some x => x.pname | none => zeros 16
       let mac := if l2 then p.ethSrc else zeros 6
@@ -552,20 +553,18 @@ def wanEgressUdp (rt : RouteIn → Int) (w : World) (s : Skb) (l2 : Bool) (p : P
       match dec with
       | none => (w2, outShot s)
       | some (ob, mark, must, mac, hpname, hpid) =>
-        -- fast_path_skip_routing: cache into the conn state (not for dport 53)
+        -- fast_path_skip_routing: cache EVERY decision into the conn state (not for dport 53)
         let (w3, hpname') :=
           match st with
           | some cs =>
             if k.dport != 53 then
-              if ob != OUTBOUND_DIRECT || mark != 0 || must != 0 then
-                let cs1 := { cs with mac := mac,
-                                     pname := (match pp with | some x => x.pname | none => cs.pname),
-                                     pid := (match pp with | some x => x.pid | none => cs.pid),
-                                     outbound := ob, mark := mark, must := must, dscp := p.tuples.dscp,
-                                     hasRouting := 1, lastSeen := w2.now }
-                -- the handoff name is read through the pointer into the (just rewritten) entry
-                (setConn w2 k cs1, if cached then cs1.pname else hpname)
-              else (setConn w2 k { cs with lastSeen := w2.now }, hpname)
+              let cs1 := { cs with mac := mac,
+                                   pname := (match pp with | some x => x.pname | none => cs.pname),
+                                   pid := (match pp with | some x => x.pid | none => cs.pid),
+                                   outbound := ob, mark := mark, must := must, dscp := p.tuples.dscp,
+                                   hasRouting := 1, lastSeen := w2.now }
+              -- the handoff name is read through the pointer into the (just rewritten) entry
+              (setConn w2 k cs1, if cached then cs1.pname else hpname)
             else (w2, hpname)
           | none => (w2, hpname)
         wanVerdict w3 s l2 p false ob mark must mac hpname' hpid (shortLivedUdp k || st.isNone)
